@@ -54,16 +54,19 @@ def run_mc(c, groups, coverage=False, workers=4, timeout=1500):
 def check_coverage(cov):
     """every action of the exhaustive model must have been taken"""
     need = ["MCWrite", "MCDamage", "MCDamageAfterRepair", "MCRead", "MCInspect"]
-    missing = [a for a in need if a in cov and cov[a][1] == 0]
+    missing = [a for a in need if cov and cov.get(a, (0, 0))[1] == 0]
     if missing:
         raise vlib.InfraError("exhaustive model: actions never taken: %s" % missing)
 
 
 # ---------------------------------------------------------------------------------------------------------------
-def run_driver(c, binp, traces, tag, workers=8, timeout=3000):
+def run_driver(c, binp, traces, tag, workers=8, timeout=3000, crash_streak_limit=0, crash_resample=0):
+    """Returns [(name, events)], with the driver's Skipped markers (crash gate, see worker.go) removed and counted in
+    c.cov['reads_skipped_by_crash_gate']."""
     if not traces:
         return []
-    pl = dict(root=c.datadir("ecdata-" + tag), seed=c.seed, workers=workers, traces=traces)
+    pl = dict(root=c.datadir("ecdata-" + tag), seed=c.seed, workers=workers, traces=traces,
+              crash_streak_limit=crash_streak_limit, crash_resample=crash_resample)
     pf = os.path.join(c.scratch, "plan-%s.json" % tag)
     of = os.path.join(c.scratch, "out-%s.ndjson" % tag)
     with open(pf, "w") as f:
@@ -72,7 +75,14 @@ def run_driver(c, binp, traces, tag, workers=8, timeout=3000):
     got = vlib.split_traces(vlib.read_ndjson(of))
     if len(got) != len(traces):
         raise vlib.InfraError("driver returned %d traces for %d planned" % (len(got), len(traces)))
-    return got
+    skipped = 0
+    out = []
+    for name, evs in got:
+        keep = [e for e in evs if e["ev"] != "Skipped"]
+        skipped += len(evs) - len(keep)
+        out.append((name, keep))
+    c.cov["reads_skipped_by_crash_gate"] = c.cov.get("reads_skipped_by_crash_gate", 0) + skipped
+    return out
 
 
 KEEP = dict(Setup=("d", "p", "repair"), Write=("fail", "kind", "ok"), Damage=("kinds", "fresh"),
@@ -177,13 +187,26 @@ def damage_classes(events, index, model_kinds):
     return out
 
 
-def pad_first(classes, model_kinds):
-    """the pad count the decoder uses is the one of the lowest-numbered shard file that could be read"""
+def pad_position(classes, model_kinds):
+    """Position class of a corrupted pad count.  The decoder takes the pad count from one shard's metadata:
+    'file'  = the lowest-numbered shard file that can be read at all has a corrupted pad count,
+    'valid' = the lowest-numbered shard file that is self-consistent (complete, checksum matches, pad count in range)
+              has a corrupted (in-range) pad count.   Returns e.g. 'metaPadLow@file+valid' or ''."""
+    where, cls = [], ""
     for i, mk in enumerate(model_kinds):
         if mk in ("missing", "truncShort"):
             continue
-        return classes[i].startswith("metaPad")
-    return False
+        if classes[i].startswith("metaPad"):
+            where.append("file")
+            cls = classes[i]
+        break
+    for i, mk in enumerate(model_kinds):
+        if mk == "ok" or classes[i] == "metaPadLow":
+            if classes[i] == "metaPadLow":
+                where.append("valid")
+                cls = cls or classes[i]
+            break
+    return "%s@%s" % (cls, "+".join(where)) if where else ""
 
 
 def norm_detail(s):
@@ -193,6 +216,7 @@ def norm_detail(s):
         t = m.group(1).strip()
         t = re.sub(r"\[(\d*):(\d+)\]", lambda mm: "[%s:N]" % mm.group(1), t)
         t = re.sub(r"\[\d+\] with length \d+", "[N] with length N", t)
+        t = re.sub(r"with capacity \d+", "with capacity N", t)
         return t
     s = re.sub(r"/[^\s:]+", "<path>", s)
     s = re.sub(r"\d+", "N", s)
@@ -211,8 +235,9 @@ def read_signature(dev):
     sig = "%s:want=%s:got=%s:%s:kinds=%s" % ("read2" if rec["rounds"] >= 2 else "read", rec["want"], got,
                                             "within" if within else "beyond",
                                             "+".join(sorted(set(x for x in classes if x))))
-    if pad_first(classes, rec["kinds"]):
-        sig += ":padFirst"
+    pp = pad_position(classes, rec["kinds"])
+    if pp:
+        sig += ":pad=" + pp
     return sig, classes
 
 
